@@ -9,6 +9,12 @@
                 <nF> <failing broker>*  @ <nD> <topic>* <nU> { <topic> <partition> <offset> <count> }
               (the part after @ is what the REAL cluster module sent in this cycle, used by the Go probe only)
             | S <cluster> <grouphex> <order 0|1>      two status requests: 0 = full view then problems-only view, 1 = the reverse
+            | P <cluster> <ngoroutines> { <nmsg> { <order> <keyhex> <valuehex> } }
+                                                      a batch of messages decoded CONCURRENTLY (one goroutine per list, as the
+                                                      per-partition consumers of the offsets topic do); the groups of different
+                                                      lists are disjoint, so every interleaving that keeps each list's order
+                                                      leaves the same observable state (C08: per-group FIFO + frame); the model
+                                                      runs the lists one after the other
             | L <cluster>                             the consumer list of the cluster (StorageFetchConsumers on the composed
                                                       machine's storage state; what GET /v3/kafka/<cluster>/consumer serves)
    <allow>/<deny> index the pattern pool (0 = not set), names are hex ("-" = empty); topic ids n of the cluster tables are
@@ -206,6 +212,11 @@ let run (line : string) : string =
           out := fmt_status "P" f p :: !out;
           out := fmt_status "F" f f :: !out
         end
+      | "P" ->
+        let c = next_z t in
+        let lists = next_list t (fun t -> next_list t (fun t ->
+          let order = next_z t in let key = bytes_of_hex (next t) in let value = bytes_of_hex (next t) in (order, key, value))) in
+        List.iter (List.iter (fun (order, key, value) -> ignore (step (KafkaMessage (c, key, value, order))))) lists
       | "L" ->
         let c = next_z t in
         (match Model.step cf (!ps).p_now (!ps).p_storage (FetchConsumers c) with
